@@ -89,6 +89,9 @@ def cases(tier, seed):
     for (j, m, lo, hi) in ([(2, 2, 1, 2), (3, 2, 1, 2)] if q else [(2, 2, 1, 2), (3, 2, 1, 2), (2, 3, 2, 3), (3, 2, 2, 2)]):
         add(dict(env="fjsp", jobs=j, mas=m, min_ops=lo, max_ops=hi, mask_no_ops=False, n=j * hi, pmax=5))
         add(dict(env="jssp", jobs=j, mas=m, one2one=True, mask_no_ops=False, n=j * m, pmax=5))
+    # horizons beyond the env's 9999 "not scheduled yet" marker on enumerable instances
+    add(dict(env="fjsp", jobs=2, mas=2, min_ops=1, max_ops=2, mask_no_ops=False, n=4, pmin=4000, pmax=9000), ("gen",), max(2, reps // 2))
+    add(dict(env="jssp", jobs=3, mas=2, one2one=True, mask_no_ops=False, n=6, pmin=3000, pmax=6000), ("gen",), max(2, reps // 2))
     for (s_, k, j) in ([(2, 2, 2), (2, 2, 3)] if q else [(2, 2, 2), (2, 2, 3), (2, 3, 3), (3, 2, 2)]):
         add(dict(env="ffsp", stages=s_, mas=k, jobs=j, flatten=True, n=j * s_, tmax=3))
     for n in ((4, 5) if q else (3, 4, 5, 6, 7)):
